@@ -22,6 +22,10 @@ def nontrivial(line, rec):
 
 
 def run(ctx):
+    import clilib as _cl
+    _cl.stream(ctx, "cligraphout", gen.cligraphout_lines(ctx.rng.fork("cligraphout"), 500 if ctx.quick else 12000, 1),
+               "cmr-network [-t] -G: the written graph file, parsed by the Coq edge-list grammar, is a certificate for the matrix parsed from the input bytes",
+               lambda c: gen.CLIGRAPHOUT_CODES.get(c, str(c)))
     q = ctx.quick
     lines = []
     bound = 9 if q else 12
